@@ -1166,3 +1166,36 @@ for _shape, (_q, _a, _al) in C12_SHAPES.items():
     C12_SHAPE_CASES.append(_c12_case('sqlparse.sql.TokenList.get_name', _shape,
                                      ['result == (remove_quotes(ALIAS.value) or remove_quotes(NAME.value))' if _al
                                       else 'result == remove_quotes(NAME.value)']))
+
+
+# --------------------------------------------------------------------------------- Token.match, regex form (C10 / C11)
+
+def _leaf_any(ex, st):
+    W = ex.W
+    tt = fresh('self_tt', W.TT)
+    st.assume(tt != W.tt_none)
+    val = fresh('self_val', z3.StringSort())
+    norm = fresh('self_norm', z3.StringSort())
+    iskw = self_kw = ex._b(ex.contains(STy(tt), W.T.Keyword, st))
+    return ex.new_token(st, {'CLS': W.cls_const[W.sql.Token], 'value': SStr(val), 'TXT': SStr(val), 'is_group': False,
+                             'ttype': STy(tt), 'parent': Opaque('some-parent'), 'is_whitespace': False,
+                             'is_keyword': SBool(iskw), 'is_newline': False, 'normalized': SStr(norm)})
+
+
+class token_match_regex:
+    """Token.match(ttype, values, regex=True): true iff the token has exactly that type and one of the patterns is found
+    in the token's NORMALIZED text (upper-cased, inner whitespace collapsed for keywords: Token.__init__), searched
+    case-insensitively for keywords.  The split words of the reindent filters ('GROUP BY', 'ORDER BY', ...) are matched
+    this way, so they match however the keyword is spelled (C10, C11).  re is trusted: RE_SEARCH is uninterpreted."""
+    exec_class = HeapExec
+    params = {'self': _leaf_any, 'ttype': 'tt', 'values': lambda ex, st: (SStr(z3.String('in_v0')), SStr(z3.String('in_v1'))),
+              'regex': lambda ex, st: True}
+    requires = ['ttype is not None']
+    ensures = ['result == (self.ttype is ttype and ('
+               're.compile(old(values)[0], re.IGNORECASE if self.is_keyword else 0).search(self.normalized) is not None or '
+               're.compile(old(values)[1], re.IGNORECASE if self.is_keyword else 0).search(self.normalized) is not None))']
+    raises = []
+    serves = ['C10', 'C11']
+
+
+REG.add('sqlparse.sql.Token.match', 'regex form', token_match_regex)
